@@ -37,7 +37,8 @@ type Wrapper struct {
 	Sections  []*Section
 	APICalls  map[string]bool
 	Spawns    []string
-	Synthetic bool // goroutine body started by a wrapper
+	Synthetic bool              // goroutine body started by a wrapper
+	Escapes   map[string]string // shared memory the returned values point to -> site
 }
 
 type pstate struct {
@@ -345,6 +346,14 @@ func (A *Analyzer) analyzeWrapper(fn *ssa.Function, name string, isGo bool) (*Wr
 	if len(wr.Sections) == 0 && wr.Irregular == "" {
 		// takes no lock and touches nothing shared: one empty lock-free section
 		wr.Sections = []*Section{{Mode: "N", Acc: map[accOut]string{}, Callees: map[string]bool{}}}
+	}
+	wr.Escapes = map[string]string{}
+	for k, site := range fa.sum.RetLoc {
+		if w.sharedRoot(k.Root) {
+			if old, ok := wr.Escapes[k.Loc]; !ok || site < old {
+				wr.Escapes[k.Loc] = site
+			}
+		}
 	}
 	for _, f := range spawned {
 		wr.Spawns = append(wr.Spawns, fnName(f))
